@@ -169,6 +169,12 @@ package resolver
 //@   assert at store dns.MsgHdr.AuthenticatedData#1: value ==> lastret("(*middleware/resolver.Resolver).verifyDNSSEC") && lastret("middleware/resolver/dnssec.VerifyWildcardAnswerForZoneWithWork")
 //@   assert at store dns.MsgHdr.AuthenticatedData#2: value ==> resp.AuthenticatedData && targetMsg.AuthenticatedData
 //@   assert at call internal/dnsutil.FilterRRsToZone#1: arg1 == signer && lastret("(*middleware/resolver.Resolver).verifyDNSSEC")
+//@   # C08: a DNAME target leg's outcome (records, rcode, denial) is adopted into the outer reply only after the outer
+//@   # reply was bound to the lease of the delegation the target leg was learned through - whatever the target
+//@   # contributed (answers, NXDOMAIN or an answer-less NODATA)
+//@   assert at store dns.MsgHdr.Rcode#1: value == targetMsg.Rcode && (targetCut == nil || calls("(*middleware.ResponseMeta).BoundCutFor") == 1)
+//@   assert at call (*middleware.ResponseMeta).BoundCutFor#1: arg0 == lastret("middleware.ResponseMetaFrom") && arg1 == lastret("(*middleware.ResponseMeta).Cut") && arg2 == lastret("(*middleware.ResponseMeta).Cut", 1)
+//@   assert at call (*middleware.ResponseMeta).Cut#1: arg0 == targetCut && targetCut == lastret("(*middleware/resolver.Resolver).checkDname", 1)
 //@
 //@ # negative answers: same discipline; AD and the validated-denial mark require chain verification
 //@ func (*Resolver).authority
@@ -179,6 +185,18 @@ package resolver
 //@   assert at call (*middleware/resolver.Resolver).verifyDNSSEC#1: lastret("middleware/resolver/dnssec.ValidateSigner") == nil && arg2 == signer && arg4 == resp && arg5 == lastret("(*middleware/resolver.Resolver).findDS") && len(arg5) > 0
 //@   assert at store dns.MsgHdr.AuthenticatedData#1: value ==> lastret("(*middleware/resolver.Resolver).verifyDNSSEC")
 //@   assert at call middleware.MarkValidatedNegativeProofResponse#1: lastret("(*middleware/resolver.Resolver).verifyDNSSEC") && arg1 == resp
+//@   # the denial records a negative answer is judged by are ONLY those inside the zone whose keys verified the reply:
+//@   # both the NSEC3 and the NSEC set pass through FilterRRsToZone(., chosenSigner) (verifyDNSSEC skips out-of-zone
+//@   # authority records, so an unfiltered foreign NSEC would be an unauthenticated proof), and every verifier and
+//@   # aggressive-use evaluator receives exactly that filtered set, the verified signer, and this response
+//@   assert at call internal/dnsutil.FilterRRsToZone#1: arg1 == chosenSigner && lastret("(*middleware/resolver.Resolver).verifyDNSSEC")
+//@   assert at call internal/dnsutil.FilterRRsToZone#2: arg1 == chosenSigner && lastret("(*middleware/resolver.Resolver).verifyDNSSEC")
+//@   assert at call middleware/resolver/dnssec.VerifyNameErrorForZoneWithWork#1: arg0 == resp && arg1 == lastret("internal/dnsutil.FilterRRsToZone#1") && arg2 == chosenSigner
+//@   assert at call middleware/resolver/dnssec.VerifyNODATAForZoneWithWork#1: arg0 == resp && arg1 == lastret("internal/dnsutil.FilterRRsToZone#1") && arg2 == chosenSigner
+//@   assert at call middleware/resolver/dnssec.EvaluateAggressiveNSEC3#1: arg1 == chosenSigner && arg2 == lastret("internal/dnsutil.FilterRRsToZone#1")
+//@   assert at call middleware/resolver/dnssec.VerifyNameErrorNSEC#1: arg0 == resp && arg1 == lastret("internal/dnsutil.FilterRRsToZone#2")
+//@   assert at call middleware/resolver/dnssec.VerifyNODATANSEC#1: arg0 == resp && arg1 == lastret("internal/dnsutil.FilterRRsToZone#2")
+//@   assert at call middleware/resolver/dnssec.EvaluateAggressiveNSEC#1: arg1 == chosenSigner && arg2 == lastret("internal/dnsutil.FilterRRsToZone#2")
 //@
 //@ # referrals: with CD=0 validation needs trust anchors (fail closed); a verified referral yields the child's signed DS
 //@ # set, or an empty DS set only after a denial proof from the validated signer zone verified; otherwise an error
@@ -378,6 +396,16 @@ package resolver
 //@ # ---- C01 / C11: a resolution error reaches the client as SERVFAIL built from the request (with the error's EDE),
 //@ # never as the partial upstream data; the resolver is entered with AD and RD cleared and, when validation is
 //@ # configured, with the CLIENT's CD bit unchanged
+//@ # C08: the resolver reports the delegation lease into the sink its CALLER established (the cache's write-back sink
+//@ # for a client query, the prefetch worker's or a sub-query's own sink otherwise); it installs the chain's pooled
+//@ # meta only when there is no sink at all, never in place of an existing one, and exactly one reply is written
+//@ func (*DNSHandler).ServeDNS
+//@   abstract
+//@   nosafety all pre
+//@   assert at call middleware.WithResponseMeta#1: lastret("middleware.ResponseMetaFrom") == nil
+//@   assert at call (*middleware/resolver.DNSHandler).handle#1: arg2 == lastret("(*middleware.Chain).Materialize", 1) && calls("(*middleware/resolver.DNSHandler).handle") == 0
+//@   assert at call (middleware.ResponseWriter).WriteMsg#1: arg1 == lastret("(*middleware/resolver.DNSHandler).handle") && calls("(middleware.ResponseWriter).WriteMsg") == 0
+//@
 //@ func (*DNSHandler).handle
 //@   abstract
 //@   nosafety all pre
